@@ -45,6 +45,11 @@ type NotRelPtr struct{ *ecs.Relation }
 type NotRelNone struct{ V uint64 }
 type relAlias = ecs.Relation
 
+// NotRelNamed has a first field of another type that is merely called Relation.
+type NotRelNamed struct {
+	Relation uint32
+}
+
 var staticTypes = map[string]reflect.Type{
 	"R0":  reflect.TypeOf(RelA{}),
 	"R1":  reflect.TypeOf(RelB{}),
@@ -61,6 +66,13 @@ var staticTypes = map[string]reflect.Type{
 	"S9":  reflect.TypeOf(G9{}),
 	"S10": reflect.TypeOf(G10{}),
 	"S11": reflect.TypeOf(G11{}),
+	// look-alikes that must not count as relations
+	"N0": reflect.TypeOf(NotRelSecond{}),
+	"N1": reflect.TypeOf(NotRelNested{}),
+	"N2": reflect.TypeOf(NotRelPtr{}),
+	"N3": reflect.TypeOf(NotRelNone{}),
+	"N4": reflect.TypeOf(ecs.Relation{}),
+	"N5": reflect.TypeOf(NotRelNamed{}),
 }
 
 var fillerElems = []reflect.Type{
